@@ -90,19 +90,19 @@ type Frame struct {
 }
 
 type State struct {
-	frames  []*Frame
-	cellVal map[*Cell]Value
-	heap    map[string]*Term // heap map name -> current array term
-	heapSort map[string]string // heap array key -> element sort (shared, append-only)
-	epoch   int
-	pc      []*Term
-	nalloc  int
-	allocBase *Term // current allocation watermark base (alloc0 at entry; a fresh symbol after each loop cut)
-	path    []string // human-readable trail of decisions
-	mu      *Term    // unused
-	ghostI  map[*ssa.BasicBlock]*Term
-	trace   []string
-	dead    bool
+	frames    []*Frame
+	cellVal   map[*Cell]Value
+	heap      map[string]*Term  // heap map name -> current array term
+	heapSort  map[string]string // heap array key -> element sort (shared, append-only)
+	epoch     int
+	pc        []*Term
+	nalloc    int
+	allocBase *Term    // current allocation watermark base (alloc0 at entry; a fresh symbol after each loop cut)
+	path      []string // human-readable trail of decisions
+	mu        *Term    // unused
+	ghostI    map[*ssa.BasicBlock]*Term
+	trace     []string
+	dead      bool
 }
 
 func (s *State) clone() *State {
